@@ -75,13 +75,20 @@ impl ZmtpFrameEncoder {
       for msg in group {
         let payload = msg.data_bytes().unwrap_or_default();
         let len = payload.len();
-        let is_more = msg.flags().contains(MsgFlags::MORE);
+        let flags = msg.flags();
+        let mut zmtp_flags = 0u8;
+        if flags.contains(MsgFlags::MORE) {
+          zmtp_flags |= 0x01;
+        }
+        if flags.contains(MsgFlags::COMMAND) {
+          zmtp_flags |= 0x04;
+        }
 
         if len <= 255 {
-          self.header_slab.put_u8(if is_more { 0x01 } else { 0x00 });
+          self.header_slab.put_u8(zmtp_flags);
           self.header_slab.put_u8(len as u8);
         } else {
-          self.header_slab.put_u8(if is_more { 0x03 } else { 0x02 });
+          self.header_slab.put_u8(zmtp_flags | 0x02);
           self.header_slab.put_u64(len as u64);
         }
 
